@@ -56,6 +56,8 @@ func Main() {
 		os.Exit(cmdDeterminism(os.Args[2:]))
 	case "digests":
 		cmdDigests(os.Args[2:])
+	case "trace":
+		cmdTrace(os.Args[2:])
 	default:
 		fmt.Fprintln(os.Stderr, "unknown sub-command", os.Args[1])
 		os.Exit(2)
@@ -106,6 +108,41 @@ func cmdDigests(args []string) {
 			cls = append(cls, v.Class)
 		}
 		fmt.Printf("DIGEST %d %s choices=%d fp=%x viol=%s herr=%v\n", i, r.Digest(), len(r.C.Log()), r.Fingerprint(), strings.Join(cls, ","), herr != "")
+	}
+}
+
+// cmdTrace prints the full trace of one generated run (debugging aid).
+func cmdTrace(args []string) {
+	fs := flag.NewFlagSet("trace", flag.ExitOnError)
+	prop := fs.String("prop", "", "")
+	part := fs.String("part", "", "")
+	tier := fs.String("tier", "quick", "")
+	seed := fs.Uint64("seed", envSeed(), "")
+	index := fs.Uint64("index", 0, "")
+	fs.Parse(args)
+	ck := LookupPart(*prop, *part)
+	if ck == nil {
+		fmt.Fprintln(os.Stderr, "no such check")
+		os.Exit(2)
+	}
+	c := NewGen(*seed, runStream(ck, *index))
+	r := NewRun(ck.Prop, *tier, *seed, *index, c, true)
+	r.maxLines = 1 << 30
+	herr := Execute(ck, r)
+	for _, l := range r.Lines() {
+		fmt.Println(l)
+	}
+	fmt.Printf("-- digest=%s choices=%d nontrivial=%v simtime=%v steps=%d herr=%q\n", r.Digest(), len(c.Log()), r.IsNontrivial(), r.SimTime, r.Steps, herr)
+	var keys []string
+	for k := range r.Stats {
+		keys = append(keys, k)
+	}
+	sort.Strings(keys)
+	for _, k := range keys {
+		fmt.Printf("-- %s=%d\n", k, r.Stats[k])
+	}
+	for _, v := range r.Violations {
+		fmt.Printf("-- VIOLATION %s: %s\n", v.Class, v.Detail)
 	}
 }
 
